@@ -11,7 +11,7 @@ CHECKS = {
              '+= -= *= /= Transpose Real Imag == code is executed symbolically from its LLVM IR with every component, matrix entry and '
              'scalar a solver variable; the vector<->matrix map is pinned against the generalised Gell-Mann definition (layout d*i+j, '
              'Tr l_a l_b = 2 delta_ab) and each operation is decided against the corresponding matrix operation by z3 (LRA/NRA on the '
-             'normal-form residual, Float64 for exact Hermiticity, path-wise for operator== with owning and viewing operands in all four combinations). The matrix constructor is also run on strided views (a d x d block of a larger matrix whose other entries are symbolic) and decided identical to the compact case; A/=s must be the single division a_k/s per component (term identity: a reciprocal-and-multiply is equal in exact reals only). Bounded: all inputs in the unit box for '
+             'normal-form residual, Float64 for exact Hermiticity, operator== decided over Float64 values (no arithmetic involved: +0 = -0 must hold, a bytewise comparison is refuted) with owning and viewing operands in all four combinations). The matrix constructor is also run on strided views (a d x d block of a larger matrix whose other entries are symbolic) and decided identical to the compact case; A/=s must be the single division a_k/s per component (term identity: a reciprocal-and-multiply is equal in exact reals only). Bounded: all inputs in the unit box for '
              'the toleranced identities (the maps are linear-homogeneous), exact reals instead of doubles.',
         note='Trusted: clang-14 -O1 IR as source semantics (diffed bit-for-bit against the g++ build on seeded inputs each run); GSL '
              'accessor shim harness/gsl_shim.c; exact-real arithmetic with a 1e-13 tolerance stands in for "up to rounding" '
@@ -22,7 +22,7 @@ CHECKS = {
              'for d=2..6 with both operands fully symbolic; the results are compared with i(AB-BA), AB+BA, Tr(AB) built from the '
              'implementation\'s own (C01-pinned) vector->matrix map; the residual polynomials (normal form, exact rationals) are bounded '
              'by z3 (linear relaxation, then NRA witness queries); antisymmetry, symmetry, zero identity component, bilinearity and '
-             'Tr(A i[A,B])=0 are decided on the kernels themselves. Any wrong structure constant, index or sign yields a rational '
+             'Tr(A i[A,B])=0 are decided on the kernels themselves; both commutators are also assigned into a vector viewing an operand\'s buffer, into a target with previous content and onto an operand, and must give the same polynomials. Any wrong structure constant, index or sign yields a rational '
              'counterexample that is replayed on the g++ build against numpy matrix algebra.',
         note='Trusted: as C01; tolerance 1e-13 on the unit box absorbs the rounding of the generated decimal literals; floating-point '
              'evaluation error of the (division-free, bilinear) kernels is not decided.',
@@ -33,7 +33,7 @@ CHECKS['C13'] = dict(
          'unconstrained 32-bit solver variable; z3 decides, per path, that the represented matrix (through the C01-pinned map) is the '
          'documented 0/1 diagonal as a function of the index, that exactly the inadmissible indices throw, and that '
          'PosProjector(d,k)+NegProjector(d,d-k)=Identity for 0<k<d with k shared symbolically between two executions. The index space '
-         'is finite, so the per-dimension verdict is exhaustive. Every factory is also run after a vector of the same dimension, filled with one symbolic value, was destroyed (its block may be handed back): the result must not depend on that value.',
+         'is finite, so the per-dimension verdict is exhaustive. Every factory is also run after a vector of the same dimension, filled with one symbolic value, was destroyed (its block may be handed back) and after the same factory ran in a neighbouring dimension: the result must not depend on either.',
     note='Trusted: clang-14 -O1 IR (every admissible call is also diffed interpreter-vs-native), GSL shim, z3. Dimensions outside 2..6 '
          'belong to C14.',
     design='§3 C13')
@@ -42,7 +42,7 @@ CHECKS['C17'] = dict(
          '(thorough 2..33) with a<b and x symbolic reals: grid shape (ends, monotone, equal spacing; log/exp as monotone inverse '
          'uninterpreted functions with listed lemma instances; (1+delta) rounding model for the linear end point), acceptance of user '
          'grids iff sorted and of the right size with exact storage, and Get_i bracketing on exact uniform grids and on arbitrary '
-         'strictly increasing symbolic grids (i<=nx-2, x_i<=x<=x_{i+1}, throws iff outside). A log grid whose nodes are not exp of an affine function of log a, log b cannot be decided in the uninterpreted model and is confirmed or dismissed natively at node counts up to 200000 (end node within 8(1+|log a|+|log b|) ulp of b); the linear node formula must be the term a+(b-a)k/(nx-1) (monotone in doubles) or pass a native stress battery; the range test of Get_i is decided in the (1+delta) rounding model (end nodes never rejected, outer neighbours never accepted).',
+         'strictly increasing symbolic grids (i<=nx-2, x_i<=x<=x_{i+1}, throws iff outside). A log grid whose nodes are not exp of an affine function of log a, log b cannot be decided in the uninterpreted model and is confirmed or dismissed natively at node counts up to 200000 (end node within 8(1+|log a|+|log b|) ulp of b); the linear node formula must be the term a+(b-a)k/(nx-1) (monotone in doubles) or pass a native stress battery; the range test of Get_i is decided in the (1+delta) rounding model (end nodes never rejected, outer neighbours never accepted); lookup / re-grid / lookup: the second answer is decided by the new grid alone.',
     note='Trusted: clang-14 -O1 IR (interpreter-vs-native diff), std::string/operator new intrinsics, GSL shim for the Const members; '
          'exact reals stand in for doubles (the lookup only compares, so rounding enters through the grid values, which are symbolic).',
     design='§3 C17')
@@ -72,7 +72,7 @@ CHECKS['C06'] = dict(
          'multiplied out equals Const::GetTransformationMatrix entry-wise, and B0 is the reversed, angle-negated sequence; end to end '
          'for small d. Rotate(U), UTransform(U), UDaggerTransform(U) are decided against U^dagger M U / U M U^dagger for a fully symbolic '
          'complex U, including after a previous call with the same matrix object or another dimension (thread-local scratch). The '
-         'WeightedRotation sandwich is decided = Yd A Yd, both overloads compose the same logged primitive maps, and the call with the weight operator being the rotated vector itself equals the call with a separate copy (d<=2 quick, <=3 thorough, all angles symbolic). The parameter store '
+         'WeightedRotation sandwich is decided = Yd A Yd, both overloads compose the same logged primitive maps, and the call with the weight operator being the rotated vector itself equals the call with a separate copy (d<=2 quick, <=3 thorough, all angles symbolic); a native battery at special magnitudes (angles ~1e-9, next to pi/2) is reported separately. The parameter store '
          'is decided with unconstrained symbolic indices.',
     note='Trusted: as C03; zgemm/containers from the reference shim; matrix entry points for d<=4 in the quick tier (d<=6 thorough); '
          'general (non-diagonal) Yd is outside the WeightedRotation clause.',
@@ -84,7 +84,7 @@ CHECKS['C14'] = dict(
          'bit-identical (object fields and buffer cells) and no load/store may fall outside the operands\' own d^2 doubles. All '
          'constructors/factories are run with dimension 1,7,8, every unsupported list length <=64, every unsupported matrix shape up to 8x8 and '
          'a symbolic factory index in 0..d*d+2; z3 decides that only admissible arguments are accepted; out-of-range cache indexing is caught '
-         'by the object table; every entry point is run with separate operand buffers and with both operands viewing one user buffer. Candidates are replayed natively under ASan/UBSan.',
+         'by the object table; every entry point is run with separate operand buffers, with both operands viewing one user buffer, and with a first operand that changed dimension by move assignment; self-owned targets of rejected compound assignments keep their value. Candidates are replayed natively under ASan/UBSan.',
     note='Trusted: clang-14 -O1 IR; heap/object model of irsym (fresh 32-byte aligned blocks, thread-local cache initially empty); the '
          'window of unsupported arguments is the one stated in the property.',
     design='§3 C14')
@@ -97,7 +97,7 @@ CHECKS['C08'] = dict(
          'with a reference model of value semantics, the ownership invariant (no block owned twice, owned storage is a live new[] block, '
          'user buffers unchanged and never owned) is checked on the raw objects, every memory access is checked by the object table, '
          'and at the end each vector is copied and compared through the public interface and everything is destroyed and the cache '
-         'drained (double/invalid frees). Failing histories are replayed on an ASan/UBSan build against a concrete run of the model.',
+         'drained (double/invalid frees); every live vector satisfies the representation invariants (never owning and borrowing at once, size = dim^2, no storage without ownership or binding). Failing histories are replayed on an ASan/UBSan build against a concrete run of the model, with the same invariants read off the native objects.',
     note='Trusted: clang-14 -O1 IR; irsym heap model (quick: 32-byte aligned blocks; thorough: both residues mod 32 forked); the reference '
          'model vmodel.py encodes the documentation (moved-from vectors: only safety; consumed externally backed vectors: unspecified); '
          'histories longer than 3 operations and pools larger than 4 live vectors are outside the bound; quick tier samples the multi-step '
@@ -122,7 +122,7 @@ CHECKS['C15'] = dict(
          'object table (bounds, lifetime, constness), every delete against the allocation ledger, nsw/nuw arithmetic, shifts, division, '
          'unreachable and llvm.assume incl. its "align" operand bundles (asserted, i.e. the alignment/size guarantees handed to the optimiser must hold; an alignment family sends plain new[] blocks through the cache before guarantee<AlignedStorage> is used) on the executed path; at the end everything is '
          'destroyed, the cache drained and the ledger must be empty. SQuIDS objects: construct/ini/re-ini/move/destroy histories with a '
-         'full new/new[]/malloc ledger. Failing histories are replayed on an ASan/UBSan build with a counting allocator.',
+         'full new/new[]/malloc ledger, including const queries on one and two objects (thread-local scratch). Failing histories are replayed on an ASan/UBSan build with a counting allocator.',
     note='Trusted: clang-14 -O1 IR; irsym object/heap model; bound: histories <=3 operations (multi-step ones sampled by VERIF_SEED in the '
          'quick tier), dimensions (2,3) quick / three pairs thorough; arithmetic with empty-vector operands excluded (stated precondition '
          'size>=1); SQuIDS::Evolve excluded (GSL ODE driver has no IR); one logical thread.',
@@ -135,7 +135,7 @@ CHECKS['C09'] = dict(
          'symbolically with all components, the scalar and the evolution table symbolic, and compared (normal-form polynomials, raw '
          'object state, user buffers) with the twin: the same operation evaluated by the real kernels into a fresh temporary from fresh '
          'non-aliased operands, then applied component-wise. Illegal shapes must throw with the target unchanged; documented '
-         'no-allocation shapes must not call operator new[]. A symbolic scalar means special-value branches (e.g. c==0) are explored.',
+         'no-allocation shapes must not call operator new[]. A symbolic scalar means special-value branches (e.g. c==0, c==1) are explored; the representation invariants of C08 hold after every statement.',
     note='Trusted: clang-14 -O1 IR; irsym heap model; twin = the library\'s own kernels (their content is C02/C03); quick tier: all shapes '
          'for d=2, seeded samples for d=3..6; thorough: all shapes for d=2..6; rvalue operands are distinct objects from the target.',
     design='§3 C09')
@@ -160,7 +160,7 @@ CHECKS['C04'] = dict(
          'i[rho,HI] - {Gamma,rho} + I_rho and -Gamma_s s + I_s per node/matrix/scalar built from the INPUT buffer with the arguments (node, '
          'index, stepper time); every output entry is written, nothing else of the driver\'s buffers is, PreDerive(tau) precedes the terms, '
          'exactly the enabled terms are called once, the callback parameter is the evolving object, enabled terms imply an integration, '
-         'the clock advances by dt, views are re-aliased to the stored state, a failing status becomes std::runtime_error; the driver is created with the user\'s step size and tolerances in GSL\'s argument order (hstart, epsabs, epsrel; hmin; hmax).',
+         'the clock advances by dt, views are re-aliased to the stored state, a failing status becomes std::runtime_error; the driver is created with the user\'s step size and tolerances in GSL\'s argument order (hstart, epsabs, epsrel; hmin; hmax); from every switch state each setter called last with each value leaves Evolve integrating iff a term is enabled (320 cases).',
     note='Trusted: clang-14 -O1 IR; GSL driver stub, whose contract (inputs are the state array or driver-owned scratch, outputs driver-owned and distinct, times inside the interval) is validated against the real driver on every run (6 steppers x adaptive/fixed); OUTSIDE: "agrees with closed-form solutions to the requested tolerance for every stepper" -- GSL is compiled code '
          'without IR; that clause is only exercised natively (every stepper, adaptive and fixed, against scipy) on one configuration per run '
          'and in the replay of candidates.',
@@ -172,7 +172,7 @@ CHECKS['C10'] = dict(
          't_ini + sum dt as a polynomial identity (fixed stepping: t + n*(dt/n)); with all terms off the stored state is term-identical and '
          'PreDerive(t_new) is called exactly once on the evolving object; after every Evolve each in-step view is the stored state at its '
          'documented offset; after a move the ODE callbacks are bound to the new object and read the buffer handed to them; re-ini starts a '
-         'fresh clock; after every operation (moves included) the object in use reports the initial time it was given and the accumulated clock.',
+         'fresh clock; after every operation (moves included) the object in use reports the initial time it was given and the accumulated clock; a switch toggle is a single setter call.',
     note='Trusted: as C04. OUTSIDE: equality of the integrated state with a single Evolve over the total interval (GSL integrators); '
          'exercised natively only (split vs single interval in the C04 replay).',
     design='§3 C10, §4')
@@ -197,7 +197,7 @@ CHECKS['C07'] = dict(
          'call sites checked to pass (2,5), hence whether matrix_exponential can throw for n=2..6; (3) dispatch with all 2n^2 entries '
          'symbolic: the diagonal shortcut is taken iff the matrix is diagonal and returns diag(exp a_ii), every other input reaches the '
          'estimator; (4) UTransform(V,scale): the matrix handed to the exponential is scale*S2M(V) and the result is E^dagger M E for the '
-         '(summarised, arbitrary) E it returns, also after a previous call in another dimension (thread-local scratch); (5) order selection, scaling and repeated squaring: on a bidiagonal nilpotent 7x7 matrix with 12 symbolic parameters, for which every Pade order and every scaling is exact, the result is decided equal to exp(A) for scripted norm estimates that drive every order 3,5,7,9,13 (by norm and by ell veto) and scaling exponents s=0,1,2,6,8 (thorough 0..8, 10: norms up to the ~1e3 the property allows).',
+         '(summarised, arbitrary) E it returns, also after a previous call in another dimension (thread-local scratch); (5) order selection, scaling and repeated squaring: on a bidiagonal nilpotent 7x7 matrix with 12 symbolic parameters, for which every Pade order and every scaling is exact, the result is decided equal to exp(A) for scripted norm estimates that drive every order 3,5,7,9,13 (by norm and by ell veto) and scaling exponents s=0,1,2,6,8 (thorough 0..8, 10: norms up to the ~1e3 the property allows); a native call-history battery (small matrix first, then every band, one process) is reported separately.',
     note='OUTSIDE: "equals exp(A) to a small multiple of machine precision times the conditioning, for every matrix, norm band and history": '
          'floating-point backward-error analysis through GSL\'s compiled LU, the randomised norm estimator and pow/log; also the theta_m '
          'thresholds and the values of the estimators are not decided (the estimators are stubs in (5); ell(B,13) is scripted as 0, which holds on the property\'s domain). The native replay compares with scipy.linalg.expm on '
@@ -208,7 +208,7 @@ CHECKS['C12'] = dict(
          'symbolic and sqrt/cbrt/pow/carg/clog/cexp as uninterpreted atoms) which divisors can vanish for finite inputs -- every divisor that '
          'is a polynomial in the inputs, and the polynomial base of every pow/sqrt/cbrt atom occurring in a divisor; each satisfying '
          'assignment is completed to a concrete operator and run on the real code, which must return finite values with M V = V diag(L) and '
-         'V unitary; for d=2,4,5,6 the glue around gsl_eigen_hermv under a contract stub (matrix handed over = S2M(vector), containers and workspace of order d, workspace released, results passed through, sort requested iff asked, vector unmodified, no leak). Not decided: validity for degenerate/near-degenerate spectra and all of dimensions 2,4,5,6 (GSL); those are exercised '
+         'V unitary; for d=2,4,5,6 the glue around gsl_eigen_hermv under a contract stub (matrix handed over = S2M(vector), containers and workspace of order d, workspace released, results passed through, sort requested iff asked, vector unmodified, no leak); for d=3 a second decomposition in the same thread returns exactly the single-call terms. Not decided: validity for degenerate/near-degenerate spectra and all of dimensions 2,4,5,6 (GSL); those are exercised '
          'by a native battery of structured inputs and call histories whose findings are reported and labelled as such.',
     note='OUTSIDE: gsl_eigen_hermv (compiled, iterative) for d != 3; the residual/unitarity identity for d = 3 (complex cube roots, '
          'cancellation). Three pre-existing defects of the d=3 closed form are recorded in known_findings.txt (not repaired: a correct '
@@ -221,7 +221,7 @@ CHECKS['C18'] = dict(
          'GetIntermediateState, Get_i on a solver built by another thread) are obtained by symbolic execution of the real IR '
          'under logical threads with an access monitor -- with every component, time, angle and the query position symbolic (exact reals, branch feasibility by z3) for the arithmetic classes and the queries, with concrete doubles where the matrix exponential is involved: every store must hit the calling thread\'s stack, heap blocks, buffers or its own '
          'thread-local instances, never the shared solver or another thread\'s storage; results are bit-identical across threads and equal '
-         'to the native single-thread run. (b) Vectors created under one thread are destroyed under another. (c) At thread exit the '
+         'to the native single-thread run. (b) Vectors created under one thread are destroyed under another; a thread whose only library call is a query with an operator made elsewhere. (c) At thread exit the '
          'thread-local destructors the code registered are executed and the allocation ledger must be empty.',
     note='Schedules themselves are not enumerated: pthreads / TLS runtime have no encoding here and CBMC\'s concurrency mode cannot take '
          'this pointer-based code; if no operation writes memory another thread can access, every interleaving is race free and returns '
